@@ -93,7 +93,8 @@ func check(c Case) error {
 	desc := func() string {
 		v, _ := json.Marshal(c.Vars)
 		l, _ := json.Marshal(c.Lists)
-		return fmt.Sprintf("template %s\nvars %s lists %s", src, v, l)
+		vl, _ := json.Marshal(c.VLists)
+		return fmt.Sprintf("template %s\nvars %s lists %s vlists %s form %q items %q", src, v, l, vl, c.Form, c.Items)
 	}
 	if err != nil {
 		return fmt.Errorf("render failed: %v\n%s", err, desc())
@@ -136,6 +137,11 @@ func classify(c Case) (bool, []string) {
 	add(st.sibBefore, "sibling-before")
 	add(st.sibAfter, "sibling-after")
 	add(st.loopEmpty, "empty-loop")
+	add(c.Form != "", "global-operands:"+c.Form)
+	add(c.Items != "" && (st.inLoop || st.slotted > 0), "loop-items:"+c.Items)
+	add(st.shadowed, "cond-on-loop-var-shadowing-global")
+	add(st.shadowOpp, "shadowed-global-has-opposite-truthiness")
+	add(st.shadowNil, "nil-item-shadows-truthy-global")
 	add(st.slotted > 0, "slot-content-used-k-times")
 	add(st.slotChain, "chain-in-slot-content")
 	add(st.slotTwice, "slot-used-twice-per-item")
@@ -207,7 +213,7 @@ func TestProp(t *testing.T) {
 		}
 	}
 	if ok {
-		rec.Exhaustive(fmt.Sprintf("truthiness table: %d values (every scalar kind and width, strings, nil, missing, pointers, slices, maps, structs) x %d positions", len(table), len(positions)))
+		rec.Exhaustive(fmt.Sprintf("truthiness table: %d values (every scalar kind and width, strings, nil, missing, pointers, slices, maps, structs) x %d positions (%d on the plain name, 7 for each of %d operand path forms incl. a loop variable shadowing a root variable of the opposite truthiness)", len(table), len(positions), basePositionCount, len(forms)))
 	}
 
 	// ---- Family A: chain shapes x truth assignments x separators x siblings x placements x member decorations
